@@ -153,7 +153,7 @@ def plan(seed, tier):
                 "world": worlds[j % nworlds],
                 "fn": "run_restart_histories",
                 "payload": {"seed": "%s/c07r/%d" % (seed, j), "count": 3 if tier == "quick" else 12, "maxlen": 14},
-                "timeout": 600,
+                "timeout": 1200,
             }
         )
     for j in range(njobs):
@@ -162,7 +162,7 @@ def plan(seed, tier):
                 "world": worlds[j % nworlds],
                 "fn": "run_histories",
                 "payload": {"seed": "%s/c07/%d" % (seed, j), "count": per, "maxlen": 30 if j % 4 else 8},
-                "timeout": 600,
+                "timeout": 1200,
             }
         )
     return jobs
